@@ -4,7 +4,7 @@
   Every theorem is about the executable models in Mpir/Model/Root.lean (run against the real
   library on every check) and the tables regenerated from the source in Mpir/Gen/SqrtTabs.lean.
 -/
-import MpirProofs.Lemmas.Root
+import MpirProofs.Lemmas.PerfPow
 namespace Mpir.Root
 open Mpir Mpir.Gen.SqrtTabs
 
@@ -92,6 +92,36 @@ theorem mpz_root_sign_flag (u : Int) (n : Nat) (hrr : RootremSpec) :
         (flag = true ↔ (iroot n u.natAbs) ^ n = u.natAbs) ∧ (flag = true ↔ root ^ n = u) ∧
         root ^ n + rem = u) :=
   mpz_root_sign_flag_at u n (fun h0 h1 w => hrr u.natAbs n w (Int.natAbs_pos.mpr h0) h1)
+
+/-- THE CONTRACT OF mpn_rootrem, DISCHARGED: for every operand `a ≥ 1` of at most 2^61 bits and every index `k ≥ 2` the
+    model `rootrem a (limbCount a) k w` the mpz layer calls returns the floor root; its second component is zero exactly
+    for perfect k-th powers and is the remainder when `remp ≠ NULL`.  (Composition of `Rootrem.mpn_rootrem_spec` — basecase,
+    padded approximate call, mpn_rootrem_internal over the whole schedule — with the agreement of the two models,
+    Lemmas/RootremBridge.lean.  `RootremSpec`, the same for ALL `a`, is not provable: beyond 2^(2^62) the schedule
+    array `sizes[65]` overflows, in the C as in the model.) -/
+theorem rootrem_contract (a k : Nat) (w : Bool) (ha : 0 < a) (hk : 2 ≤ k) (hsz : bitLen a ≤ 2 ^ 61) :
+    (rootrem a (limbCount a) k w).1 = iroot k a ∧
+    ((rootrem a (limbCount a) k w).2 = 0 ↔ (iroot k a) ^ k = a) ∧
+    (w = true → (rootrem a (limbCount a) k w).2 = a - (iroot k a) ^ k) :=
+  Rootrem.rootremAt_holds a k ha hk hsz w
+
+example : rootrem (7 ^ 150 + 5) (limbCount (7 ^ 150 + 5)) 5 true = (7 ^ 30, 5) ∧
+    (rootrem ((2 ^ 200 + 12345) ^ 2 + 2 ^ 200) 7 2 false).1 = 2 ^ 200 + 12345 := by decide +kernel
+
+/-- mpz_root / mpz_nthroot / mpz_rootrem, UNCONDITIONAL (`mpz_root_sign_flag` without its hypothesis) for every operand
+    an mpz_t can hold (`|SIZ| < 2^31` limbs, i.e. below 2^37 bits; proved up to 2^61 bits) and every index. -/
+theorem mpz_root_spec (u : Int) (n : Nat) (hsz : bitLen u.natAbs ≤ 2 ^ 61) :
+    (u < 0 ∧ n % 2 = 0 → mpzRoot u n = .error "sqrtneg" ∧ mpzRootrem u n = .error "sqrtneg") ∧
+    (¬(u < 0 ∧ n % 2 = 0) → n = 0 → mpzRoot u n = .error "div0" ∧ mpzRootrem u n = .error "div0") ∧
+    (¬(u < 0 ∧ n % 2 = 0) → n ≠ 0 → ∃ (root rem : Int) (flag : Bool),
+        mpzRoot u n = .ok (root, flag) ∧ mpzRootrem u n = .ok (root, rem) ∧
+        root = u.sign * (iroot n u.natAbs : Nat) ∧
+        (flag = true ↔ (iroot n u.natAbs) ^ n = u.natAbs) ∧ (flag = true ↔ root ^ n = u) ∧
+        root ^ n + rem = u) :=
+  mpz_root_sign_flag_at u n (fun h0 h1 => Rootrem.rootremAt_holds u.natAbs n (Int.natAbs_pos.mpr h0) h1 hsz)
+
+example : mpzRoot (-(7 ^ 150)) 5 = .ok (-(7 ^ 30), true) ∧ mpzRootrem (-(7 ^ 150) - 3) 5 = .ok (-(7 ^ 30), -3) ∧
+    mpzRoot ((2 ^ 200 + 12345) ^ 2 + 2 ^ 200) 2 = .ok (2 ^ 200 + 12345, false) := by decide +kernel
 
 -- non-vacuity: a negative cube and a negative non-cube, an even root of a negative, a zeroth root
 example : mpzRoot (-27) 3 = .ok (-3, true) ∧ mpzRootrem (-30) 3 = .ok (-3, -3) ∧
@@ -281,6 +311,44 @@ example : finalAdjust 3 1000 11 = (10, 0) ∧ finalAdjust1 5 (3 ^ 5 - 1) 3 = (2,
     covered by the differential run against the exhaustive-exponent specification `isPerfectPower`. -/
 theorem perfect_power_p_iff_partial (hrr : RootremSpec) (u : Int) (h : mpzPerfectPowerP u = true) :
     ∃ (a : Int) (b : Nat), 2 ≤ b ∧ a ^ b = u := perfect_power_sound hrr u h
+
+/-- Soundness of mpz_perfect_power_p, UNCONDITIONAL (`perfect_power_p_iff_partial` without its hypothesis): every
+    call of mpz_root made by mpz/perfpow.c is on a divisor of `|u|`, where the contract of mpn_rootrem is now proved. -/
+theorem perfect_power_p_sound (u : Int) (hsz : bitLen u.natAbs ≤ 2 ^ 61) (h : mpzPerfectPowerP u = true) :
+    ∃ (a : Int) (b : Nat), 2 ≤ b ∧ a ^ b = u := by
+  by_cases h0 : u = 0
+  · exact ⟨0, 2, by omega, by rw [h0]; norm_num⟩
+  · have hpos : 0 < u.natAbs := Int.natAbs_pos.mpr h0
+    exact perfect_power_sound_at u (fun a k ha hk hd =>
+      Rootrem.rootremAt_holds a k ha hk (Nat.le_trans (Rootrem.bitLen_mono (Nat.le_of_dvd hpos hd)) hsz)) h
+
+/-- mpz_perfect_power_p (mpz/perfpow.c) IN FULL, for every integer an mpz_t can hold (proved up to 2^61 bits): the
+    function answers "yes" exactly for the perfect powers of the manual — `u = a^b` with integers `a` and `b ≥ 2`;
+    0, 1 and −1 are perfect powers, a negative number only with an odd exponent (automatic: an even power is `≥ 0`).
+    Completeness (`IsPP u → yes`, Lemmas/PerfPow.lean) carries, for every exponent `b ≥ 2`, the invariant
+      `|u|` is a b-th power  ⟺  `b ∣ n2` ∧ the remaining cofactor is a b-th power
+    through `mpz_scan1` / the division by `2^n2` and every round of the trial-division loop (`n2 = 0`: no constraint;
+    `gcd` of multiplicities; unique factorisation enters as `isPow_split`), and shows for each "no" exit that no admissible
+    exponent is left: 2 or an odd prime dividing exactly once, a multiplicity or a final `n2` that is a power of two
+    with `u < 0` (the 2-power rule), `gcd = 1`, a prime `n2` whose root is not exact (`n2prime:`; `n2 = 2` with `u < 0`),
+    and both root-attempt loops over prime exponents `nth` (starting at 3 for `u < 0`): they reach a prime divisor of the
+    exponent before the cut-off `root < SMALLEST_OMITTED_PRIME` (the cofactor has no divisor below that bound: the
+    REGENERATED table contains a divisor of every `2 ≤ d < 1009`, `perfpowPrimes_cover`), before the bound `nth ≤ n2`
+    and within the bit length of the cofactor.  `isprime` of the C is proved equal to primality (`isprime_iff`). -/
+theorem perfect_power_p_iff (u : Int) (hsz : bitLen u.natAbs ≤ 2 ^ 61) :
+    mpzPerfectPowerP u = true ↔ ∃ (a : Int) (b : Nat), 2 ≤ b ∧ a ^ b = u := by
+  refine ⟨perfect_power_p_sound u hsz, fun h => ?_⟩
+  by_cases h0 : u = 0
+  · subst h0; decide
+  · have hpos : 0 < u.natAbs := Int.natAbs_pos.mpr h0
+    exact perfect_power_complete_at u (fun a k ha hk hd =>
+      Rootrem.rootremAt_holds a k ha hk (Nat.le_trans (Rootrem.bitLen_mono (Nat.le_of_dvd hpos hd)) hsz)) h
+
+-- non-vacuity (both directions on concrete operands): −(2^12·1009^4) has only the even exponent 4 → no; 2^6·1009^3 = (4·1009)^3
+example : mpzPerfectPowerP (-(2 ^ 12 * 1009 ^ 4)) = false ∧ mpzPerfectPowerP (2 ^ 6 * 1009 ^ 3) = true ∧
+    mpzPerfectPowerP (-(2 ^ 6 * 1009 ^ 3)) = true ∧ mpzPerfectPowerP (1013 ^ 7) = true ∧
+    mpzPerfectPowerP (1013 ^ 7 + 1) = false ∧ mpzPerfectPowerP (-(3 ^ 20 * 5 ^ 12)) = false ∧
+    mpzPerfectPowerP (-(3 ^ 9 * 5 ^ 6)) = true := by decide +kernel
 
 -- non-vacuity: the model says yes on 0, 1, −1, −27·64, 2^10·3^15 and no on 2, −16, −4·81
 example : mpzPerfectPowerP 0 = true ∧ mpzPerfectPowerP 1 = true ∧ mpzPerfectPowerP (-1) = true ∧
